@@ -32,6 +32,8 @@ type core struct {
 	monitor        *ssa.Function         // goroutine root from which the store functions are reachable
 	cbLoop         *ssa.Function         // function that invokes handler-typed values
 	instFrameCache *instFrame
+	cbHelpersCache []*cbHelper
+	cbHelpersDone  bool
 	ok             bool
 }
 
@@ -124,14 +126,27 @@ func loadCore(c *Ctx) *core {
 		}
 	}
 	// the callback loop: the function that calls values of the handler types
+	// (a goroutine root; handlers may also be invoked by helpers it calls)
+	var handlerFns []*ssa.Function
 	for _, f := range w.funcsIn("") {
 		for _, i := range allInstrs(f) {
 			if ci, ok := i.(ssa.CallInstruction); ok && isHandlerCall(ci) {
-				if k.cbLoop == nil {
-					k.cbLoop = f
+				if len(handlerFns) == 0 || handlerFns[len(handlerFns)-1] != f {
+					handlerFns = append(handlerFns, f)
 				}
 			}
 		}
+	}
+	for _, hf := range handlerFns {
+		roots, _ := k.cg.goroutineRootsOf(hf)
+		for r := range roots {
+			if k.cbLoop == nil && r != k.monitor {
+				k.cbLoop = r
+			}
+		}
+	}
+	if k.cbLoop == nil && len(handlerFns) > 0 {
+		k.cbLoop = handlerFns[0]
 	}
 	ok = c.need(len(k.storeFns) > 0, "a monitor-side function storing to Dials.value") && ok
 	ok = c.need(k.monitor != nil, "the goroutine root that reaches the store of Dials.value") && ok
@@ -1265,6 +1280,76 @@ func (fr *instFrame) toMonitor(v ssa.Value) ssa.Value {
 	if p, ok := v.(*ssa.Parameter); ok {
 		if a, ok := fr.up[p]; ok {
 			return a
+		}
+	}
+	return v
+}
+
+// ---- callback-loop helpers ------------------------------------------------------------------------------
+//
+// The callback loop may delegate the delivery to the registered callbacks to a helper (one call site in the
+// loop, no other caller). Handler calls inside such a helper count as calls made by the loop, in the arm of the
+// call site, with the helper's parameters standing for the loop's arguments.
+
+type cbHelper struct {
+	fn   *ssa.Function
+	site *ssa.Call
+	up   map[*ssa.Parameter]ssa.Value
+}
+
+func (k *core) cbHelpers() []*cbHelper {
+	if k.cbHelpersDone {
+		return k.cbHelpersCache
+	}
+	k.cbHelpersDone = true
+	for _, f := range k.w.funcsIn("") {
+		if f == k.cbLoop || f == k.monitor || len(f.Blocks) == 0 {
+			continue
+		}
+		has := false
+		for _, i := range allInstrs(f) {
+			if ci, ok := i.(ssa.CallInstruction); ok && isHandlerCall(ci) {
+				has = true
+			}
+		}
+		if !has {
+			continue
+		}
+		sites := callsToFn(k.cbLoop, f)
+		if len(sites) != 1 || len(k.cg.in[f]) != 1 {
+			continue
+		}
+		call, ok := sites[0].(*ssa.Call)
+		if !ok {
+			continue // started with go / defer: not a synchronous helper
+		}
+		h := &cbHelper{fn: f, site: call, up: map[*ssa.Parameter]ssa.Value{}}
+		for pi, p := range f.Params {
+			if pi < len(call.Call.Args) {
+				h.up[p] = call.Call.Args[pi]
+			}
+		}
+		k.cbHelpersCache = append(k.cbHelpersCache, h)
+	}
+	return k.cbHelpersCache
+}
+
+func (k *core) isCbHelper(f *ssa.Function) *cbHelper {
+	for _, h := range k.cbHelpers() {
+		if h.fn == origin(f) || h.fn == f {
+			return h
+		}
+	}
+	return nil
+}
+
+// cbUp maps a helper's parameter to the callback loop's argument.
+func (k *core) cbUp(v ssa.Value) ssa.Value {
+	if p, ok := v.(*ssa.Parameter); ok {
+		for _, h := range k.cbHelpers() {
+			if a, ok := h.up[p]; ok {
+				return a
+			}
 		}
 	}
 	return v
